@@ -225,7 +225,11 @@ class Register:
 
         context = context or {}
 
-        if idx < 0 or (self.size is not None and idx >= self.size):
+        size = self.size
+        while isinstance(size, AnnotatedValue):
+            # e.g. a register whose size is given by a let constant
+            size = size.resolve_value(context)
+        if idx < 0 or (size is not None and idx >= size):
             raise JaqalError("Index out of range.")
         if self.fundamental:
             return (self, idx)
